@@ -179,6 +179,8 @@ pub struct Stats {
     pub max_ratio: f64,
     pub classes: Vec<u64>,
     pub samples: Vec<Value>,
+    /// representative executions (unit, choices) collected for the call-order pass
+    pub reps: Vec<(usize, Vec<u32>)>,
 }
 
 pub struct Violation {
@@ -186,6 +188,8 @@ pub struct Violation {
     pub unit: usize,
     pub choices: Vec<u32>,
     pub fail: Fail,
+    /// call-order pass: the execution that was run immediately before this one on the same thread
+    pub preceded_by: Option<(usize, Vec<u32>)>,
 }
 
 pub struct PhaseReport {
@@ -196,6 +200,9 @@ pub struct PhaseReport {
     pub violation: Option<Violation>,
     pub known_hits: BTreeMap<&'static str, (u64, Value)>,
     pub units: usize,
+    /// call-order pass: number of representative executions R (every ordered pair = R*R two-call sequences)
+    pub order_reps: usize,
+    pub order_pairs: u64,
 }
 
 pub struct Config {
@@ -206,6 +213,8 @@ pub struct Config {
     pub cap_s: f64,
     /// known-finding keys listed for this property in known_findings.json
     pub known: Vec<String>,
+    /// number of representative executions per phase for the call-order pass (0 = off)
+    pub order_reps: usize,
 }
 
 fn run_one(body: &Body, unit: usize, cx: &mut Cx) -> Verdict {
@@ -287,6 +296,7 @@ pub fn run_phase(ph: &Phase, cfg: &Config) -> PhaseReport {
                     let mut first = true;
                     let mut item_samples = 0;
                     let mut count_in_item = 0u64;
+                    let mut item_reps = 0;
                     let want_samples = it == sample_item || it == 0 || it + 1 == items.len();
                     loop {
                         cx.sampling = want_samples && item_samples < 2 && count_in_item < 5000;
@@ -309,6 +319,10 @@ pub fn run_phase(ph: &Phase, cfg: &Config) -> PhaseReport {
                             }
                         }
                         first = false;
+                        if count_in_item.is_power_of_two() && item_reps < 20 && v.is_ok() {
+                            st.reps.push((unit, cx.choices()));
+                            item_reps += 1;
+                        }
                         if let Err(f) = v {
                             let is_known = f.finding.map_or(false, |k| cfg.known.iter().any(|x| x == k));
                             if is_known {
@@ -317,7 +331,7 @@ pub fn run_phase(ph: &Phase, cfg: &Config) -> PhaseReport {
                                 e.0 += 1;
                             } else {
                                 min_bad.fetch_min(it, Ordering::SeqCst);
-                                viol = Some((it, Violation { phase: ph.name, unit, choices: cx.choices(), fail: f }));
+                                viol = Some((it, Violation { phase: ph.name, unit, choices: cx.choices(), fail: f, preceded_by: None }));
                                 break;
                             }
                         }
@@ -358,6 +372,7 @@ pub fn run_phase(ph: &Phase, cfg: &Config) -> PhaseReport {
                         g.0.samples.push(sv);
                     }
                 }
+                g.0.reps.extend(st.reps);
                 if let Some(v) = viol {
                     let better = match &g.1 {
                         None => true,
@@ -379,6 +394,59 @@ pub fn run_phase(ph: &Phase, cfg: &Config) -> PhaseReport {
     stats.states += 1 + ph.units as u64 + prefix_nodes;
     stats.transitions += ph.units as u64 + prefix_nodes;
     let capped = capped.load(Ordering::SeqCst);
+    let mut violation = violation;
+    // ---- call-order pass: every ordered pair (i, j) of R representative executions is run as the two-call sequence
+    // "i then j" on one thread; both calls are judged by the phase's own oracle. Pure operations must not care about the
+    // call before them: a result that depends on it (thread-local scratch, memo, cache) shows up as a violation of j.
+    let mut order_reps = 0usize;
+    let mut order_pairs = 0u64;
+    if violation.is_none() && !capped && cfg.order_reps > 0 {
+        let mut reps = std::mem::take(&mut stats.reps);
+        reps.sort();
+        reps.dedup();
+        // keep the pass within a CPU budget: R*R two-call sequences at the phase's measured cost per execution
+        let per_exec = (t0.elapsed().as_secs_f64() * nthreads as f64 / (stats.executions.max(1) as f64)).max(1e-7);
+        let budget = if cfg.thorough { 480.0 } else { 64.0 };
+        let r_budget = ((budget / (2.0 * per_exec)).sqrt() as usize).max(8);
+        let r = cfg.order_reps.min(reps.len()).min(r_budget);
+        let picked: Vec<(usize, Vec<u32>)> = if reps.len() <= r { reps } else { (0..r).map(|k| reps[k * reps.len() / r].clone()).collect() };
+        order_reps = picked.len();
+        let nexti = AtomicUsize::new(0);
+        let found: Mutex<Option<(usize, Violation)>> = Mutex::new(None);
+        let pairs = std::sync::atomic::AtomicU64::new(0);
+        std::thread::scope(|s| {
+            for _ in 0..cfg.threads.max(1).min(picked.len().max(1)) {
+                s.spawn(|| loop {
+                    let i = nexti.fetch_add(1, Ordering::SeqCst);
+                    if i >= picked.len() || found.lock().unwrap().is_some() {
+                        break;
+                    }
+                    for j in 0..picked.len() {
+                        let (_v1, _) = run_single_q(ph, picked[i].0, &picked[i].1, cfg.thorough, cfg.seed);
+                        let (v2, _) = run_single_q(ph, picked[j].0, &picked[j].1, cfg.thorough, cfg.seed);
+                        pairs.fetch_add(1, Ordering::Relaxed);
+                        if let Err(f) = v2 {
+                            let is_known = f.finding.map_or(false, |k| cfg.known.iter().any(|x| x == k));
+                            if !is_known {
+                                let mut g = found.lock().unwrap();
+                                let key = i * picked.len() + j;
+                                if g.as_ref().map_or(true, |(k, _)| key < *k) {
+                                    let mut f = f;
+                                    f.what = format!("{} [in the call-order pass: only after another call on the same thread]", f.what);
+                                    *g = Some((key, Violation { phase: ph.name, unit: picked[j].0, choices: picked[j].1.clone(), fail: f, preceded_by: Some(picked[i].clone()) }));
+                                }
+                                break;
+                            }
+                        }
+                    }
+                });
+            }
+        });
+        order_pairs = pairs.load(Ordering::SeqCst);
+        if let Some((_, v)) = found.into_inner().unwrap() {
+            violation = Some((usize::MAX, v));
+        }
+    }
     PhaseReport {
         name: ph.name,
         stats,
@@ -387,7 +455,17 @@ pub fn run_phase(ph: &Phase, cfg: &Config) -> PhaseReport {
         violation: violation.map(|v| v.1),
         known_hits,
         units: ph.units,
+        order_reps,
+        order_pairs,
     }
+}
+
+fn run_single_q(ph: &Phase, unit: usize, choices: &[u32], thorough: bool, seed: u64) -> (Verdict, Vec<u32>) {
+    let mut cx = Cx::new(ph.classes.len(), thorough, seed);
+    cx.forced = choices.to_vec();
+    cx.forced_widths = vec![0; choices.len()];
+    let v = run_one(&ph.body, unit, &mut cx);
+    (v, cx.choices())
 }
 
 /// run exactly one execution (for replay): returns the verdict and the trail taken
@@ -467,6 +545,7 @@ pub fn run_check(chk: Check, thorough: bool, seed: u64, extra_violation: Option<
         threads: std::env::var("VERIF_THREADS").ok().and_then(|s| s.parse().ok()).unwrap_or(16),
         cap_s: std::env::var("VERIF_CAP_S").ok().and_then(|s| s.parse().ok()).unwrap_or(if thorough { 3000.0 } else { 600.0 }),
         known: known_keys,
+        order_reps: std::env::var("VERIF_ORDER_REPS").ok().and_then(|s| s.parse().ok()).unwrap_or(if thorough { 320 } else { 128 }),
     };
     let mut reports = vec![];
     for ph in &chk.phases {
@@ -507,7 +586,8 @@ pub fn run_check(chk: Check, thorough: bool, seed: u64, extra_violation: Option<
         exhaustive &= r.exhaustive;
         phases_json.push(json!({"phase": r.name, "units": r.units, "states": r.stats.states, "transitions": r.stats.transitions,
             "executions": r.stats.executions, "nontrivial": r.stats.nontrivial, "subject_evaluations": r.stats.evals,
-            "exhaustive": r.exhaustive, "wall_s": (r.wall_s * 1000.0).round() / 1000.0}));
+            "exhaustive": r.exhaustive, "wall_s": (r.wall_s * 1000.0).round() / 1000.0,
+            "call_order_pass": {"representative_executions": r.order_reps, "ordered_pairs_run": r.order_pairs}}));
         bounds.insert(r.name.to_string(), ph.bounds.clone());
         if violation.is_none() {
             violation = r.violation.as_ref();
@@ -525,6 +605,7 @@ pub fn run_check(chk: Check, thorough: bool, seed: u64, extra_violation: Option<
         let rp = json!({
             "property": chk.id, "tier": if thorough {"thorough"} else {"quick"}, "seed": seed,
             "phase": v.phase, "unit": v.unit, "choices": v.choices,
+            "preceded_by": v.preceded_by.as_ref().map(|p| json!({"unit": p.0, "choices": p.1})),
             "what": v.fail.what, "detail": v.fail.detail,
             "replay_cmd": format!("{root}/bin/check {} replay <this file>", chk.id),
         });
@@ -532,7 +613,10 @@ pub fn run_check(chk: Check, thorough: bool, seed: u64, extra_violation: Option<
         let path = format!("{root}/replays/{}-{}.json", chk.id, &key[..12]);
         let _ = std::fs::create_dir_all(format!("{root}/replays"));
         std::fs::write(&path, serde_json::to_string_pretty(&rp).unwrap()).unwrap_or_else(|e| machinery(&format!("cannot write replay: {e}")));
-        println!("violation: {} [{} unit {} choices {:?}]", v.fail.what, v.phase, v.unit, v.choices);
+        match &v.preceded_by {
+            None => println!("violation: {} [{} unit {} choices {:?}]", v.fail.what, v.phase, v.unit, v.choices),
+            Some(p) => println!("violation: {} [{} unit {} choices {:?} after unit {} choices {:?}]", v.fail.what, v.phase, v.unit, v.choices, p.0, p.1),
+        }
         println!("VIOLATION property={} replay={}", chk.id, path);
     }
     if let Some((what, detail)) = &extra_violation {
@@ -576,6 +660,8 @@ pub fn run_check(chk: Check, thorough: bool, seed: u64, extra_violation: Option<
     cov.insert("bounds".into(), Value::Object(bounds));
     cov.insert("outcome_classes".into(), json!(classes));
     cov.insert("phases".into(), Value::Array(phases_json));
+    cov.insert("call_order_pass".into(), json!({"what": "per phase, every ordered pair (i, j) of R representative executions (collected at power-of-two positions of every work item, evenly subsampled) is run as the two-call sequence i-then-j on one thread and j is judged by the same oracle: detects results that depend on the previous call (hidden thread-local / cached state)",
+        "ordered_pairs_run": reports.iter().map(|r| r.order_pairs).sum::<u64>()}));
     cov.insert("known_findings".into(), Value::Array(known_json));
     cov.insert("controls_passed".into(), json!(chk.controls.iter().map(|c| c.0).collect::<Vec<_>>()));
     if !exhaustive && exit == 0 {
@@ -625,8 +711,17 @@ pub fn replay(chk: &Check, file: &str) -> i32 {
     let choices: Vec<u32> = v["choices"].as_array().map(|a| a.iter().map(|x| x.as_u64().unwrap() as u32).collect()).unwrap_or_default();
     let thorough = v["tier"].as_str() == Some("thorough");
     let seed = v["seed"].as_u64().unwrap_or(0);
-    let (r1, t1) = run_single(ph, unit, &choices, thorough, seed);
-    let (r2, t2) = run_single(ph, unit, &choices, thorough, seed);
+    let pre: Option<(usize, Vec<u32>)> = v.get("preceded_by").filter(|p| !p.is_null()).map(|p| {
+        (p["unit"].as_u64().unwrap_or(0) as usize, p["choices"].as_array().map(|a| a.iter().map(|x| x.as_u64().unwrap() as u32).collect()).unwrap_or_default())
+    });
+    let once = || {
+        if let Some((pu, pc)) = &pre {
+            let _ = run_single_q(ph, *pu, pc, thorough, seed);
+        }
+        run_single(ph, unit, &choices, thorough, seed)
+    };
+    let (r1, t1) = once();
+    let (r2, t2) = once();
     let d = |r: &Verdict| match r {
         Ok(()) => "held".to_string(),
         Err(f) => format!("{} {}", f.what, f.detail),
